@@ -1,5 +1,7 @@
 import EudoxiaModel.Proofs.Reach
 import EudoxiaModel.Proofs.Counts
+import EudoxiaModel.Proofs.Live
+import EudoxiaModel.Proofs.Built
 /-! # C02 — operator lifecycle follows the documented state machine; completion is final -/
 namespace Eudoxia.C02
 open Eudoxia Extracted OpState
@@ -87,5 +89,115 @@ theorem completed_never_reassigned (w : World) (a : Asg) (r : Nat) (hr : r ∈ a
 /-- non-vacuity: a two-operator chain in which the first operator is completed -/
 example : (({ ops := #[⟨0, [], []⟩, ⟨0, [0], []⟩], st := #[completed, pending], cnt := #[1, 0, 0, 0, 1, 0] } : Store).stOf 0 = completed) := by
   decide
+
+
+/-! ### one live container per operator -/
+
+/-- the ownership invariant of a world at a tick boundary: every pool is well-formed, the operators of the unfinished suffixes of all live
+(running or suspending) containers of all pools are pairwise distinct, and each of them is ASSIGNED, RUNNING or SUSPENDING -/
+structure WorldLive (w : World) : Prop where
+  pools : ∀ p ∈ w.pools, PoolGoodMem w.cfg p w.nextCid ∧ PoolLive w.cfg w.store p
+  nd : (w.pools.flatMap ownP).Nodup
+
+theorem built_frame {w w' : World} {as : List Asg} (hb : Built w as w') :
+    w'.pools = w.pools ∧ w'.cfg = w.cfg ∧ w'.nextCid = w.nextCid ∧ Steps w.store w'.store := by
+  induction hb with
+  | nil => exact ⟨rfl, rfl, rfl, .refl _⟩
+  | cons hm _ ih =>
+    obtain ⟨p1, p2, p3⟩ := mkAssignment_pools_ok hm
+    obtain ⟨i1, i2, i3, i4⟩ := ih
+    exact ⟨by rw [i1, p1], by rw [i2, p2], by rw [i3, p3], (mkAssignment_steps_ok hm).trans i4⟩
+
+theorem pendFor_zero (asgs : List Asg) : pendFor asgs 0 = asgs := by
+  unfold pendFor
+  exact List.filter_eq_self.mpr (fun a _ => by simp)
+
+theorem ops_sublist_flatMap : ∀ (asgs : List Asg) (a : Asg), a ∈ asgs → a.ops.Sublist (asgs.flatMap (·.ops)) := by
+  intro asgs
+  induction asgs with
+  | nil => intro a ha; simp at ha
+  | cons x xs ih =>
+    intro a ha
+    rw [List.flatMap_cons]
+    rcases List.mem_cons.mp ha with rfl | ha'
+    · exact List.sublist_append_left _ _
+    · exact (ih a ha').trans (List.sublist_append_right _ _)
+
+/-- **C02 — an operator is in at most one live container.**  If the invariant holds, the scheduler then builds any chain of accepted
+`Assignment`s (of operators that have segments), and the executor tick that is handed exactly those assignments (and any suspensions) succeeds,
+then the invariant holds again.  In particular the list of all operators in the unfinished suffixes of all live containers has no duplicates
+(`WorldLive.nd`), and every one of them is ASSIGNED, RUNNING or SUSPENDING (`PoolLive.busy`). -/
+theorem tick_keeps_one_live_container_per_operator (w0 w1 w2 : World) (asgs : List Asg) (sus : List (Nat × Nat)) (res : List Res)
+    (hl : WorldLive w0) (hb : Built w0 asgs w1) (hseg : ∀ a ∈ asgs, ∀ r ∈ a.ops, w0.store.segsOf r ≠ [])
+    (h : w1.execTick sus asgs = .ok (w2, res)) : WorldLive w2 := by
+  obtain ⟨b1, _, b3, b4⟩ := built_spec hb
+  have hsame := built_frame hb
+  obtain ⟨e1, e2, e3, est⟩ := hsame
+  have hsegs : ∀ r, w1.store.segsOf r = w0.store.segsOf r := by
+    intro r; unfold Store.segsOf; rw [est.ops]
+  -- owned operators are busy, so the chain did not touch them
+  have howned : ∀ p ∈ w0.pools, ∀ o ∈ ownP p, Busy (w0.store.stOf o) ∧ o ∉ asgs.flatMap (·.ops) := by
+    intro p hp o ho
+    obtain ⟨_, lp⟩ := hl.pools p hp
+    simp only [ownP, own] at ho
+    obtain ⟨c, hc, hoc⟩ := List.mem_flatMap.mp ho
+    obtain ⟨hc1, hc2⟩ := List.mem_filter.mp hc
+    have hbusy := lp.busy c hc1 (by simpa using hc2) o hoc
+    refine ⟨hbusy, fun hx => ?_⟩
+    have := (b3 o hx).1
+    rcases hbusy with e | e | e <;> (rw [e] at this; simp [assignable] at this)
+  unfold World.execTick at h
+  split at h
+  · cases h
+  · split at h
+    · cases h
+    · cases h
+    · rename_i s ps n r hex
+      simp only [Except.ok.injEq, Prod.mk.injEq] at h
+      obtain ⟨rfl, _⟩ := h
+      have hJ : PoolsLive w1.cfg asgs w1.store w1.nextCid [] w1.pools := by
+        refine ⟨?_, ?_, ?_⟩
+        · intro p hp
+          simp only [List.nil_append] at hp
+          rw [e1] at hp
+          obtain ⟨gp, lp⟩ := hl.pools p hp
+          rw [e2, e3]
+          exact ⟨gp, poolLive_frame lp (fun o ho => b4 o (howned p hp o ho).2)⟩
+        · simp only [List.nil_append, List.length_nil, pendFor_zero, opsOf]
+          rw [e1]
+          refine List.nodup_append.mpr ⟨hl.nd, b1, ?_⟩
+          intro a ha b hb' e
+          subst e
+          obtain ⟨p, hp, hop⟩ := List.mem_flatMap.mp ha
+          exact (howned p hp a hop).2 hb'
+        · simp only [List.length_nil, pendFor_zero]
+          intro a ha
+          refine ⟨?_, fun r hr => ⟨by rw [hsegs]; exact hseg a ha r hr, (b3 r (List.mem_flatMap.mpr ⟨a, ha, hr⟩)).2⟩⟩
+          have := ops_sublist_flatMap asgs a ha
+          exact this.nodup b1
+      have hfin := execPools_live _ sus asgs _ _ _ _ _ _ _ _ _ hJ hex
+      refine ⟨?_, ?_⟩
+      · intro p hp
+        have := hfin.pools p (by simpa using hp)
+        exact this
+      · have := hfin.nd
+        simp only [List.append_nil] at this
+        exact (List.nodup_append.mp this).1
+
+/-- the invariant holds in a world that has not started anything yet (non-vacuity of the hypothesis above) -/
+theorem fresh_world_live (cfg : Cfg) (store : Store) (caps : List (Nat × Nat)) :
+    WorldLive { cfg := cfg, store := store, pools := caps.map (fun c => Pool.fresh c.1 c.2), pipes := #[] } := by
+  refine ⟨?_, ?_⟩
+  · intro p hp
+    simp only [List.mem_map] at hp
+    obtain ⟨c, _, rfl⟩ := hp
+    refine ⟨⟨⟨poolInv_fresh _ _ _, ?_⟩, memOK_fresh _ _⟩, ⟨by simp [Pool.fresh], by simp [Pool.fresh], by simp [ownP, own, Pool.fresh], by intro c hc; simp [Pool.fresh] at hc⟩⟩
+    simp [Pool.NonNeg, Pool.fresh]
+  · have : ∀ (l : List (Nat × Nat)), (l.map (fun c => Pool.fresh c.1 c.2)).flatMap ownP = [] := by
+      intro l; induction l with
+      | nil => rfl
+      | cons x xs ih => simp only [List.map_cons, List.flatMap_cons, ih]; simp [ownP, own, Pool.fresh]
+    simp only [this]
+    exact List.nodup_nil
 
 end Eudoxia.C02
